@@ -31,7 +31,7 @@ func TestVerifC02Acks(t *testing.T) {
 				ackErr = err
 			}
 		}
-		h := &simHist{s: s, opts: simHistOpts{MaxRounds: 7, Faults: true, Inline: true, KillAfter: true, HTTP: true, RoundDuringSubmit: true, Admission: true}}
+		h := &simHist{s: s, opts: simHistOpts{MaxRounds: 7, Faults: true, Inline: true, KillAfter: true, HTTP: true, RoundDuringSubmit: true, Admission: true, NearCollisions: true}}
 		ntRounds := 0
 		h.afterRound = func(res *simRoundResult) error {
 			if ackErr != nil {
@@ -77,6 +77,7 @@ func TestVerifC02Acks(t *testing.T) {
 			}
 		}
 		add(st.InlineRun > 0, "inline-submission")
+		add(st.NearCollisionRounds > 0, "same-body-as-cert-and-under-two-issuers")
 		add(st.RoundsInsideSubmit > 0, "round-inside-a-submission")
 		add(st.InlineDupInSeq > 0, "dup-of-in-sequencing")
 		add(st.InlineCacheHits > 0, "inline-cache-hit")
